@@ -59,4 +59,9 @@ CHECKS.update({
          "text": "Balanced stacks are proved for all stack contents; 'no other call-time shared state' is a syntactic inventory; cache-key adequacy and the cache invariant are NOT proved (the Python value model kernel of DESIGN §3 is not built) - they are evaluated as equality of every pool call's outcome after a history with its outcome in a fresh interpreter.",
          "note": P_NOTE + B_NOTE + "Induction over histories on paper (Appendix A3); functools.cache trusted."},
 })
+CHECKS.update({
+ "C02": {"level": "other", "technique": "certifying postcondition on solve_axes/solve_shapes/matches decided per call by a z3 constraint oracle (bounded corpus) + syntactic rule 'no fixed-width size arithmetic' + large-magnitude stratum",
+         "text": "For each generated system the oracle decides unique / none / ambiguous on the reported quantities and the propagation criterion decides 'must succeed'; einx's answer must agree. Exactness beyond 2**31 is a rule over the real size arithmetic plus calls with products up to 2**180.",
+         "note": B_NOTE + "z3 trusted as oracle (unknown systems skipped and counted); sympy is not verified, only its answers; ellipsis-rank solving is covered through C07/C01 only."},
+})
 NOT_APPLICABLE = {}
